@@ -62,6 +62,37 @@ def _masked_shape(text):
     return ast.dump(Mask().visit(tree))
 
 
+def _token_shape(text):
+    """kinds of the python tokens of the generated text (names and operators
+    spelled out, literals only by kind); "broken" when a literal does not
+    end where the template ends it.  Unlike the syntax tree this exists for
+    text that does not parse: a payload that closes the quoted literal early
+    shows as extra tokens even if the remainder is (not yet) valid code."""
+    import io  # noqa: PLC0415
+    import tokenize  # noqa: PLC0415
+    out = []
+    try:
+        for t in tokenize.generate_tokens(io.StringIO(text).readline):
+            if t.type in (tokenize.NL, tokenize.NEWLINE, tokenize.INDENT,
+                          tokenize.DEDENT, tokenize.ENDMARKER,
+                          tokenize.COMMENT):
+                if t.type == tokenize.COMMENT:
+                    out.append("COMMENT")
+                continue
+            if t.type in (tokenize.STRING, tokenize.NUMBER):
+                out.append(tokenize.tok_name[t.type])
+            elif t.type == tokenize.OP and t.string in "+-" and out \
+                    and out[-1] in ("(", ","):
+                continue  # sign of a number literal
+            else:
+                out.append(t.string if t.type in (tokenize.NAME, tokenize.OP)
+                           else tokenize.tok_name[t.type])
+    except (tokenize.TokenError, SyntaxError, IndentationError,
+            UnicodeError, ValueError):
+        return "broken"
+    return tuple(out)
+
+
 FREE_TEXT_KINDS = ("STRING", "COMPRESSED_STRING", "COMPRESSED_NUMBER",
                    "CHARACTER", "CODEPAGE_NUMBER")
 
@@ -89,8 +120,10 @@ def verify_token_arms(chk, gen, tier, TF):
             lens = range(1, 2)
         for dc in ((False, True) if kind == "STRING" else (True,)):
             try:
-                ref = _masked_shape(gen.transpile_token(
-                    gen.token(kind, "a"), 0, dict_compress=dc))
+                ref_text = gen.transpile_token(
+                    gen.token(kind, "a"), 0, dict_compress=dc)
+                ref = _masked_shape(ref_text)
+                ref_tokens = _token_shape(ref_text)
             except GeneratorRaised as exc:
                 ok, why = False, f"raised {exc} on 'a'"
                 continue
@@ -109,6 +142,12 @@ def verify_token_arms(chk, gen, tier, TF):
                         continue  # no code returned
                     shape = _masked_shape(text)
                     good = shape is None or shape == ref
+                    if shape is None and "\0" not in text \
+                            and _token_shape(text) != ref_tokens:
+                        # does not parse *and* the payload is no longer
+                        # inside one literal token: a longer payload can
+                        # complete it to valid code
+                        good = False
                     chk.ob("C18.emitted-shape-independent-of-payload",
                            f"transpile_token/{kind}", good,
                            f"{kind} payload {s!r} is emitted as "
